@@ -32,16 +32,16 @@ Definition opt_exp (s : str) : bool := match s with [] => true | _ => is_exp s e
 (* the body of the numeric-looking regex after the optional sign *)
 Definition numeric_body (b : str) : bool :=
   match b with
-  | 48 :: 120 :: t => (match t with [] => false | _ => forallb (fun c => is_hex c || is_us c) t end)
+  | 48 :: 120 :: t | 48 :: 88 :: t => (match t with [] => false | _ => forallb (fun c => is_hex c || is_us c) t end)
                       || false
   | _ => false
   end
   || match b with
-     | 48 :: 111 :: t => match t with [] => false | _ => forallb (fun c => ((48 <=? c) && (c <=? 55)) || is_us c) t end
+     | 48 :: 111 :: t | 48 :: 79 :: t => match t with [] => false | _ => forallb (fun c => ((48 <=? c) && (c <=? 55)) || is_us c) t end
      | _ => false
      end
   || match b with
-     | 48 :: 98 :: t => match t with [] => false | _ => forallb (fun c => (c =? 48) || (c =? 49) || is_us c) t end
+     | 48 :: 98 :: t | 48 :: 66 :: t => match t with [] => false | _ => forallb (fun c => (c =? 48) || (c =? 49) || is_us c) t end
      | _ => false
      end
   || (let '(pre, rest) := span_p (fun c => negb (c =? 46)) b in
